@@ -9,10 +9,17 @@ props = {json.loads(l)["id"]: json.loads(l) for l in open(os.path.join(V, "prope
 TEMPLATE = open(os.path.join(V, "tools", "seed_task_template.md")).read()
 batch = sys.argv[1]
 for arg in sys.argv[2:]:
-    pid, sub = arg.split("=", 1)
-    p = props[pid]
-    ms = [m for m in p["anchors"]["mechanism"] if sub.lower() in m["name"].lower()]
-    assert len(ms) == 1, (pid, sub, [m["name"] for m in p["anchors"]["mechanism"]])
+    if "~" in arg:
+        # PID~<phrase of the property's own quantifier text>: aim at an input dimension instead of a mechanism
+        pid, sub = arg.split("~", 1)
+        p = props[pid]
+        assert sub in p["quantifier"]["text"], (pid, sub)
+        ms = [{"name": "whatever mechanism you like - but the change must show ONLY for this part of the input space the property quantifies over: \"" + sub + "\""}]
+    else:
+        pid, sub = arg.split("=", 1)
+        p = props[pid]
+        ms = [m for m in p["anchors"]["mechanism"] if sub.lower() in m["name"].lower()]
+        assert len(ms) == 1, (pid, sub, [m["name"] for m in p["anchors"]["mechanism"]])
     wt = f"/tmp/seed{batch}_{pid}"
     subprocess.run(["git", "-C", "/repo", "worktree", "remove", "--force", wt], stdout=subprocess.DEVNULL, stderr=subprocess.DEVNULL)
     r = subprocess.run(["git", "-C", "/repo", "worktree", "add", "-q", "--detach", wt, "HEAD"], capture_output=True, text=True)
